@@ -218,22 +218,53 @@ inline std::vector<Bits> base_set(int tier) {
     return out;
 }
 
-// instance-specific part: nextafter windows around the pre-image L*D/N of every limit L
+// instance-specific part: nextafter windows around the pre-image L*D/N of every limit L, and (round 3)
+// inputs whose scaled value y = x*N/D is integer-valued right next to L: x = k*D for the integers k
+// around L/N (y = k*N: the last value that fits / the first that does not, for every factor and every
+// floating source, not only where 64 ulps of the source reach an integer), plus the integers around
+// the pre-image itself.
 template <typename F>
 inline std::vector<Bits> inst_set(std::uint64_t N, std::uint64_t D, int tier) {
+    typedef unsigned __int128 u128;
     const Level lv = level(tier);
     std::vector<Bits> out;
     std::vector<long double> lims;
-    for (int b : {7, 8, 15, 16, 24, 31, 32, 53, 63, 64}) lims.push_back(std::ldexp(1.0L, b));
+    const int limbits[] = {7, 8, 15, 16, 24, 31, 32, 53, 63, 64};
+    for (int b : limbits) lims.push_back(std::ldexp(1.0L, b));
     lims.push_back((long double)std::numeric_limits<float>::max());
     lims.push_back((long double)std::numeric_limits<double>::max());
+    lims.push_back(std::numeric_limits<long double>::max());
     lims.push_back(1.0L);
+    const long double fmax = (long double)std::numeric_limits<F>::max();
     for (long double l : lims) {
-        const long double pre = l * (long double)D / (long double)N;
-        if (!(pre <= (long double)std::numeric_limits<F>::max())) continue;
+        // l * D may exceed LDBL_MAX for l = LDBL_MAX: divide first when the factor is below one
+        const long double pre = N >= D ? l / ((long double)N / (long double)D) : (l / (long double)N) * (long double)D;
+        if (!(pre <= fmax)) continue;
         const F c = static_cast<F>(pre);   // in range: checked above
         add_window(out, c, lv.wlim);
         add_window(out, -c, lv.wlim);
+    }
+    for (int b : limbits) {
+        const u128 L = (u128)1 << b;
+        const u128 k0 = L / N;
+        for (int j = -3; j <= 3; ++j) {
+            if (j < 0 && k0 < (u128)(-j)) continue;
+            const u128 k = k0 + j;
+            // k * D as a floating value (k < 2^65, D < 2^64: the product of the two roundings is exact
+            // enough to land on or next to the multiple; the oracle judges the actual x)
+            const long double xv = (long double)k * (long double)D;
+            if (!(xv <= fmax)) continue;
+            add_window(out, static_cast<F>(xv), 1);
+            add_window(out, -static_cast<F>(xv), 1);
+        }
+        const long double pre = std::ldexp(1.0L, b) * (long double)D / (long double)N;
+        if (pre <= fmax && pre < std::ldexp(1.0L, 100)) {
+            const long double fl = std::floor(pre);
+            for (int j = -4; j <= 4; ++j) {
+                add(out, static_cast<F>(fl + j));
+                add(out, -static_cast<F>(fl + j));
+            }
+        }
     }
     std::sort(out.begin(), out.end());
     out.erase(std::unique(out.begin(), out.end()), out.end());
